@@ -506,9 +506,9 @@ class RtlilEval:
                         raise Unsupported("port width mismatch")
                     for k, b in enumerate(bits):
                         if kind == "input":
-                            self.raw.append(((spath, port, k), ("bit", path, b)))
+                            self.raw.append(((spath, port, k), ("bit", path, b, "hier")))
                         elif kind == "output":
-                            self.raw.append((self.key(path, b), ("bit", spath, ("w", port, k))))
+                            self.raw.append((self.key(path, b), ("bit", spath, ("w", port, k), "hier")))
                         elif kind == "inout":
                             self.union((spath, port, k), self.key(path, b))
                         else:
@@ -670,11 +670,12 @@ class RtlilEval:
         return dv, ev, ((cid[0], cid[1], k) if dout else None)
 
     def pad_drivers(self, wire, k, memo):
-        """[(value, enable)] of every $tribuf bit that reaches top-level wire bit (wire, k)"""
+        """[(value, enable)] of everything that drives top-level wire bit (wire, k): every $tribuf bit reaching it
+        through the hierarchy, or -- a plain `connect` / cell output on the port wire -- an unconditional driver"""
         key = self.find(((), wire, k))
         while True:
             d = self.driver.get(key)
-            if d is not None and d[0] == "bit" and d[2][0] == "w":
+            if d is not None and d[0] == "bit" and d[2][0] == "w" and len(d) > 3:      # port connection: go down
                 key = self.find(self.key(d[1], d[2]))
                 continue
             break
@@ -683,6 +684,9 @@ class RtlilEval:
             for j, y in enumerate(ys):
                 if self.find(y) == key:
                     out.append((self.bit(path, a[j], memo), self.bit(path, en, memo)))
+        d = self.driver.get(key)
+        if d is not None and d[0] != "tri":
+            out.append((self.keyval(key, memo), 1))
         return out
 
     def tick(self, clk_wire):
